@@ -6,7 +6,7 @@ Local Open Scope N_scope.
 
 (* ---- once per event: the count ---- *)
 Definition bad_end (o : sout) : bool :=
-  match o with SErr => true | SEv (EvKill _ _) => true | SEv (EvExit k) => negb (k =? 0) | _ => false end.
+  match o with SErr _ => true | SEv (EvKill _ _) => true | SEv (EvExit k) => negb (k =? 0) | _ => false end.
 Lemma length_flat_fail_of : forall l,
   length (flat_map fail_of l) = (length (filter is_stop l) + length (filter bad_end l))%nat.
 Proof.
@@ -131,7 +131,7 @@ Example ex_eintr_within :
   let lr := parent_loop 0 (repeat WEintr tolerated ++ [WStat 0]) in lr_fails lr = [] /\ lr_calls lr = S tolerated /\ lr_end lr = EndReaped.
 Proof. vm_compute. repeat split. Qed.
 Example ex_stream : ends_loop ((fun n => if (n =? 3)%nat then WStat 9 else WStat 0x137f) 3%nat) = true. Proof. reflexivity. Qed.
-Example ex_no_failure : seen 0 [SEintr; SEv EvCont; SEv (EvExit 0); SErr] = [SEintr; SEv EvCont] ++ [SEv (EvExit 0)]. Proof. reflexivity. Qed.
+Example ex_no_failure : seen 0 [SEintr; SEv EvCont; SEv (EvExit 0); SErr 5] = [SEintr; SEv EvCont] ++ [SEv (EvExit 0)]. Proof. reflexivity. Qed.
 (* the oracle is not vacuous: it rejects a killed child recorded as passing, a stop counted twice, a later test not run *)
 Definition ex_killed : scenario := {| s_all_sep := false; s_tests := [TScripted true [SEv (EvKill 9 false)]; TPlain false] |}.
 Definition mk_item (fs : list failure) (calls : nat) : item := {| i_started := true; i_fails := fs; i_calls := calls; i_conts := 0; i_lost := false |}.
